@@ -18,6 +18,7 @@ from oslo_utils import encodeutils
 from oslo_utils import timeutils
 import webob
 
+from placement import db_api
 from placement import exception
 from placement import microversion
 from placement.objects import resource_provider as rp_obj
@@ -55,15 +56,18 @@ def list_usages(req):
     # get_all_by_resource_provider_uuid can return an empty list.
     # It is also needed for the generation, used in the outgoing
     # representation.
-    try:
-        resource_provider = rp_obj.ResourceProvider.get_by_uuid(
-            context, uuid)
-    except exception.NotFound as exc:
-        raise webob.exc.HTTPNotFound(
-            "No resource provider with uuid %(uuid)s found: %(error)s" %
-            {'uuid': uuid, 'error': exc})
+    # Both are read in one transaction, so that the generation belongs to
+    # the usages reported with it.
+    with db_api.placement_context_manager.reader.using(context):
+        try:
+            resource_provider = rp_obj.ResourceProvider.get_by_uuid(
+                context, uuid)
+        except exception.NotFound as exc:
+            raise webob.exc.HTTPNotFound(
+                "No resource provider with uuid %(uuid)s found: %(error)s" %
+                {'uuid': uuid, 'error': exc})
 
-    usage = usage_obj.get_all_by_resource_provider_uuid(context, uuid)
+        usage = usage_obj.get_all_by_resource_provider_uuid(context, uuid)
 
     response = req.response
     response.body = encodeutils.to_utf8(jsonutils.dumps(
